@@ -100,6 +100,12 @@ theorem fail_is_identity (db : DB) (op : Op) (e : Err) (hop : ∀ k w tx ht, op 
     | ok d => simp [commit] at hr
   cases op <;> simp only [step] at h ⊢ <;> first | exact hc _ h | simp at h | exact absurd rfl (hop _ _ _ _)
 
+/-- the spend of a confirmed batch (multi-sig witness, account output recreated) is exactly the pending-batch
+clause: the staged batch is completed if there is a loadable one, and nothing else is written -/
+theorem accountSpend_recreate (db : DB) (k : Key) (tx ht : Nat) (a : Acct) (hk : lookup k db.accounts = some a) :
+    step db (.accountSpend k .multiSigRecreate tx ht) = step db .spend := by
+  simp only [step, handleAccountSpend, hk]
+
 /-- `HandleAccountSpend` is NOT one transaction (pending-batch clause, then `UpdateAccount`): when it fails, the
 database is either untouched or exactly in the state after the completed pending-batch clause -/
 theorem accountSpend_fail (db : DB) (k : Key) (w : Witness) (tx ht : Nat) (e : Err)
@@ -117,6 +123,7 @@ theorem accountSpend_fail (db : DB) (k : Key) (w : Witness) (tx ht : Nat) (e : E
     cases w with
     | unknown => left; rfl
     | expiry => left; exact hc _ _ h
+    | multiSigRecreate => left; exact hc _ _ h
     | multiSig =>
       simp only [] at h ⊢
       cases hr : commit db (spendPendingClause db) with
@@ -365,6 +372,7 @@ theorem events_append_only (db : DB) (op : Op) (hop : ∀ n, op ≠ .deleteOrder
       cases w with
       | unknown => exact hid
       | expiry => exact ⟨[], by simp [hu db]⟩
+      | multiSigRecreate => exact ⟨[], by simpa using hs⟩
       | multiSig =>
         simp only []
         cases hr : commit db (spendPendingClause db) with
